@@ -285,6 +285,13 @@ DgCert        == DtlsFlight("cert", CertBody)
 DgSke         == DtlsFlight("ske", SkeBody)
 DgShd         == DtlsFlight("shd", NoBody)
 DgCke         == DtlsFlight("cke", CkeBody)
+\* a handshake fragment (fragment_offset > 0) of a message whose first part the endpoint already holds: total length
+\* and offset are length-like fields that govern the reassembly buffer, not bytes of this datagram
+DgFrag ==
+  LET g == <<"r1", "r1.frag", "fr">> IN
+  DtlsRec("r1") \o
+  << El(Tg(g, "fr.type", 1, 99)), Ln(g, "fr.length", 3, "", 1, 0), Fx(g, "fr.mseq", 2),
+     Ln(g, "fr.foff", 3, "", 1, 0), Ln(g, "fr.flen", 3, "fr.body", 1, 0), Vr(g, "fr.body") >>
 \* ChangeCipherSpec / encrypted records: header + opaque
 DgOpaque      == DtlsRec("r1") \o << Vr(<<"r1">>, "r1.frag") >>
 
@@ -498,7 +505,7 @@ AllTemplates == <<
   T("dtls.serverhello", DtlsServerHello), T("dtls.hvr", DtlsHvr), T("dtls.ske", DtlsSke), T("dtls.cert", DtlsCert),
   T("dtls.cke", DtlsCke), T("dtls.finished", DtlsFinished),
   T("dg.clienthello", DgClientHello), T("dg.serverhello", DgServerHello), T("dg.hvr", DgHvr), T("dg.cert", DgCert),
-  T("dg.ske", DgSke), T("dg.shd", DgShd), T("dg.cke", DgCke), T("dg.opaque", DgOpaque),
+  T("dg.ske", DgSke), T("dg.shd", DgShd), T("dg.cke", DgCke), T("dg.frag", DgFrag), T("dg.opaque", DgOpaque),
   T("sctp.init", SctpInit), T("sctp.init_ack", SctpInitAck), T("sctp.cookie_echo", SctpCookieEcho),
   T("sctp.cookie_ack", SctpCookieAck), T("sctp.data", SctpData), T("sctp.dcep_open", SctpDcepOpen), T("sctp.sack", SctpSack),
   T("sctp.heartbeat", SctpHeartbeat), T("sctp.forward_tsn", SctpForwardTsn), T("sctp.reconfig", SctpReconfig),
